@@ -207,15 +207,25 @@ func checkRegen(rec *stats.Recorder, c regenCase) (msg string) {
 
 	gen := func(step string) string {
 		cwd, arg := scratch, out
+		var before os.FileInfo
 		if c.Dot {
 			must(os.MkdirAll(out, 0o755))
 			cwd, arg = out, "."
+			before, _ = os.Stat(out)
 		}
 		if fail := generate(specFile, cwd, arg); fail != "" {
 			if strings.Contains(fail, "Could not clean up output dir") {
 				return fmt.Sprintf("G6: %s: the generator could not clean its output directory: %s", step, fail)
 			}
 			panic(fmt.Sprintf("C20 harness: generator failed for a reason unrelated to cleaning (%s): %s", step, fail))
+		}
+		if c.Dot {
+			// the target "." is the working directory of the generator (and of whatever launched it): it must still be the
+			// same directory afterwards, not one that was removed and created anew under the same name
+			after, err := os.Stat(out)
+			if err != nil || before == nil || !os.SameFile(before, after) {
+				return fmt.Sprintf("G3: %s: the generator removed its own working directory (target \".\") and re-created it: processes standing in it are left in a deleted directory (%v)", step, err)
+			}
 		}
 		return ""
 	}
